@@ -923,8 +923,19 @@ void
 do_map(Ctx& x, int s)
 {
     Mon& m = x.mon[s];
-    if (m.mapped || x.c.ended || !x.rt || x.mon_disabled)
+    if (m.mapped || x.c.ended || !x.rt)
         return;
+    if (x.mon_disabled) {
+        // monitoring is not judged until the next real stop (nothing was flushed after the acquisition
+        // that ended without one) -- but a reader that is registered in the runtime must keep consuming,
+        // or the documented back-pressure stalls the stream
+        if (m.registered) {
+            VideoFrame *b = nullptr, *e = nullptr;
+            if (acquire_map_read(x.rt, (uint32_t)s, &b, &e) == AcquireStatus_Ok)
+                acquire_unmap_read(x.rt, (uint32_t)s, (size_t)((uint8_t*)e - (uint8_t*)b));
+        }
+        return;
+    }
     bool enabled_now = false, averaged = false;
     size_t acq = 0;
     for (size_t ai : x.cur_acqs)
